@@ -248,6 +248,9 @@ TREES = {
         {"k": "r", "name": "R2 no bg", "tags": [], "desc": [], "bg": None, "items": [
             {"k": "s", "name": "in rule 2", "tags": [], "desc": [], "steps": [st("and", "inherits feature bg type"), st("then", "z")]},
         ]},
+        {"k": "r", "name": "R3 own bg ends with another type", "tags": [], "desc": [], "bg": {"name": "", "steps": [st("when", "rule bg when"), st("and", "rule bg and 2")]}, "items": [
+            {"k": "s", "name": "in rule 3", "tags": [], "desc": [], "steps": [st("and", "inherits when from the rule bg, not given from the feature bg"), st("then", "z3")]},
+        ]},
     ]},
     "outline": {"name": "Outlines", "tags": ["o"], "desc": [], "bg": None, "items": [
         {"k": "o", "name": "Template <a>", "tags": ["t", "p.<a>"], "desc": ["outline description"], "steps": [
